@@ -1,1 +1,242 @@
+/-
+C12 — property theorems about the closing formulas of the second-order reliability estimates
+(`FF.Sorm.*`, FFVerif/Model/Sorm.lean), at the reals, and the rotation/ordering invariance of the
+principal-curvature extraction.
+-/
+import Mathlib.Tactic.Ring
+import Mathlib.Tactic.NormNum
+import Mathlib.Tactic.Linarith
+import Mathlib.Tactic.Positivity
+import Mathlib.Algebra.BigOperators.Group.List.Basic
+import Mathlib.Data.List.Perm.Basic
+import Mathlib.Data.Matrix.Block
+import Mathlib.LinearAlgebra.Matrix.NonsingularInverse
+import Mathlib.LinearAlgebra.Matrix.Charpoly.Basic
+import Mathlib.Analysis.SpecialFunctions.Pow.Real
+import FFVerif.Lemmas.RealScalar
 import FFVerif.Model.Sorm
+namespace FF
+open Sorm
+
+/-! ### the scalar constants and the fold -/
+
+theorem sorm_one_real : (Sorm.one : ℝ) = 1 := by
+  unfold Sorm.one; simp only [lit_real, Nat.cast_one, pow_zero, div_one]
+
+theorem sorm_negHalf_real : (Sorm.negHalf : ℝ) = -(1 / 2 : ℝ) := by
+  unfold Sorm.negHalf; simp only [lit_real]; norm_num
+
+theorem foldl_mul_eq_prod (f : ℝ → ℝ) (ks : List ℝ) (a : ℝ) :
+    ks.foldl (fun acc k => acc * f k) a = a * (ks.map f).prod := by
+  induction ks generalizing a with
+  | nil => simp
+  | cons k ks ih => rw [List.foldl_cons, ih, List.map_cons, List.prod_cons, mul_assoc]
+
+/-- 0. the fold is the product of the per-curvature factors -/
+theorem curvProd_eq_prod (c : ℝ) (ks : List ℝ) :
+    curvProd c ks = (ks.map (fun k => (1 + c * k) ^ (-(1 / 2 : ℝ)))).prod := by
+  unfold curvProd
+  simp only [rpow_real, sorm_one_real, sorm_negHalf_real]
+  rw [foldl_mul_eq_prod (fun k => (1 + c * k) ^ (-(1 / 2 : ℝ))) ks 1, one_mul]
+
+/-! ### 1. zero curvature -/
+
+theorem curvProd_zero_curv (c : ℝ) (ks : List ℝ) (h : ∀ k ∈ ks, k = 0) : curvProd c ks = 1 := by
+  rw [curvProd_eq_prod]
+  apply List.prod_eq_one
+  intro x hx
+  obtain ⟨k, hk, rfl⟩ := List.mem_map.1 hx
+  rw [h k hk, mul_zero, add_zero, Real.one_rpow]
+
+/-- zero curvature: all three second-order estimates equal the first-order `Φ(-β)` -/
+theorem C12_zero_curvature (beta formPf pdfB cdfB : ℝ) (ks : List ℝ) (h : ∀ k ∈ ks, k = 0) :
+    breitung beta formPf ks = formPf ∧ hrack formPf pdfB cdfB ks = formPf ∧
+      tvedt beta formPf pdfB ks = formPf := by
+  refine ⟨?_, ?_, ?_⟩
+  · unfold breitung; rw [curvProd_zero_curv _ _ h, mul_one]
+  · unfold hrack; rw [curvProd_zero_curv _ _ h, mul_one]
+  · unfold tvedt
+    simp only [curvProd_zero_curv _ _ h]
+    ring
+
+/-! ### 2. permutation invariance -/
+
+theorem curvProd_perm (c : ℝ) {ks ks' : List ℝ} (h : ks.Perm ks') : curvProd c ks = curvProd c ks' := by
+  rw [curvProd_eq_prod, curvProd_eq_prod]
+  exact (h.map _).prod_eq
+
+/-- the estimates do not depend on how the principal axes are ordered -/
+theorem C12_permutation (beta formPf pdfB cdfB : ℝ) {ks ks' : List ℝ} (h : ks.Perm ks') :
+    breitung beta formPf ks = breitung beta formPf ks' ∧
+      hrack formPf pdfB cdfB ks = hrack formPf pdfB cdfB ks' ∧
+      tvedt beta formPf pdfB ks = tvedt beta formPf pdfB ks' := by
+  unfold breitung hrack tvedt
+  simp only [curvProd_perm _ h]
+  exact ⟨trivial, trivial, trivial⟩
+
+/-! ### 3. closed forms -/
+
+theorem C12_breitung_formula (beta formPf : ℝ) (ks : List ℝ) :
+    breitung beta formPf ks = formPf * (ks.map (fun k => (1 + beta * k) ^ (-(1 / 2 : ℝ)))).prod := by
+  unfold breitung; rw [curvProd_eq_prod]
+
+theorem C12_hrack_formula (formPf pdfB cdfB : ℝ) (ks : List ℝ) :
+    hrack formPf pdfB cdfB ks =
+      formPf * (ks.map (fun k => (1 + pdfB / cdfB * k) ^ (-(1 / 2 : ℝ)))).prod := by
+  unfold hrack; rw [curvProd_eq_prod]
+
+/-! ### 4. sign clause -/
+
+theorem list_prod_le_one {l : List ℝ} (h : ∀ x ∈ l, 0 ≤ x ∧ x ≤ 1) : l.prod ≤ 1 := by
+  induction l with
+  | nil => simp
+  | cons a l ih =>
+    rw [List.prod_cons]
+    have ha := h a (List.mem_cons_self)
+    have hl : l.prod ≤ 1 := ih (fun x hx => h x (List.mem_cons_of_mem _ hx))
+    calc a * l.prod ≤ a * 1 := mul_le_mul_of_nonneg_left hl ha.1
+      _ = a := mul_one a
+      _ ≤ 1 := ha.2
+
+theorem one_le_list_prod {l : List ℝ} (h : ∀ x ∈ l, 1 ≤ x) : 1 ≤ l.prod := by
+  induction l with
+  | nil => simp
+  | cons a l ih =>
+    rw [List.prod_cons]
+    have ha := h a (List.mem_cons_self)
+    have hl : 1 ≤ l.prod := ih (fun x hx => h x (List.mem_cons_of_mem _ hx))
+    calc (1 : ℝ) = 1 * 1 := (mul_one 1).symm
+      _ ≤ a * l.prod := mul_le_mul ha hl zero_le_one (le_trans zero_le_one ha)
+
+theorem curvProd_le_one (c : ℝ) (ks : List ℝ) (hc : 0 < c) (hk : ∀ k ∈ ks, 0 ≤ k) :
+    curvProd c ks ≤ 1 := by
+  rw [curvProd_eq_prod]
+  apply list_prod_le_one
+  intro x hx
+  obtain ⟨k, hkm, rfl⟩ := List.mem_map.1 hx
+  have h1 : (1 : ℝ) ≤ 1 + c * k := by
+    have := mul_nonneg hc.le (hk k hkm); linarith
+  exact ⟨Real.rpow_nonneg (le_trans zero_le_one h1) _,
+    Real.rpow_le_one_of_one_le_of_nonpos h1 (by norm_num)⟩
+
+theorem one_le_curvProd (c : ℝ) (ks : List ℝ) (hc : 0 < c) (hk : ∀ k ∈ ks, -1 / c < k ∧ k ≤ 0) :
+    1 ≤ curvProd c ks := by
+  rw [curvProd_eq_prod]
+  apply one_le_list_prod
+  intro x hx
+  obtain ⟨k, hkm, rfl⟩ := List.mem_map.1 hx
+  obtain ⟨hlo, hhi⟩ := hk k hkm
+  have hpos : 0 < 1 + c * k := by
+    have h := mul_lt_mul_of_pos_left hlo hc
+    have e : c * (-1 / c) = -1 := by field_simp
+    rw [e] at h; linarith
+  have hle : 1 + c * k ≤ 1 := by
+    have := mul_nonpos_of_nonneg_of_nonpos hc.le hhi; linarith
+  exact Real.one_le_rpow_of_pos_of_le_one_of_nonpos hpos hle (by norm_num)
+
+/-- curvature bending the surface away from the origin lowers the estimate -/
+theorem C12_sign_away (c formPf : ℝ) (ks : List ℝ) (hc : 0 < c) (hpf : 0 ≤ formPf)
+    (hk : ∀ k ∈ ks, 0 ≤ k) : formPf * curvProd c ks ≤ formPf := by
+  calc formPf * curvProd c ks ≤ formPf * 1 :=
+        mul_le_mul_of_nonneg_left (curvProd_le_one c ks hc hk) hpf
+    _ = formPf := mul_one _
+
+/-- curvature bending the surface towards the origin raises the estimate -/
+theorem C12_sign_towards (c formPf : ℝ) (ks : List ℝ) (hc : 0 < c) (hpf : 0 ≤ formPf)
+    (hk : ∀ k ∈ ks, -1 / c < k ∧ k ≤ 0) : formPf ≤ formPf * curvProd c ks := by
+  calc formPf = formPf * 1 := (mul_one _).symm
+    _ ≤ formPf * curvProd c ks := mul_le_mul_of_nonneg_left (one_le_curvProd c ks hc hk) hpf
+
+theorem C12_sign_away_breitung (beta formPf : ℝ) (ks : List ℝ) (hb : 0 < beta) (hpf : 0 ≤ formPf)
+    (hk : ∀ k ∈ ks, 0 ≤ k) : breitung beta formPf ks ≤ formPf :=
+  C12_sign_away beta formPf ks hb hpf hk
+
+theorem C12_sign_towards_breitung (beta formPf : ℝ) (ks : List ℝ) (hb : 0 < beta) (hpf : 0 ≤ formPf)
+    (hk : ∀ k ∈ ks, -1 / beta < k ∧ k ≤ 0) : formPf ≤ breitung beta formPf ks :=
+  C12_sign_towards beta formPf ks hb hpf hk
+
+theorem C12_sign_away_hrack (formPf pdfB cdfB : ℝ) (ks : List ℝ) (hp : 0 < pdfB) (hcdf : 0 < cdfB)
+    (hpf : 0 ≤ formPf) (hk : ∀ k ∈ ks, 0 ≤ k) : hrack formPf pdfB cdfB ks ≤ formPf :=
+  C12_sign_away (pdfB / cdfB) formPf ks (div_pos hp hcdf) hpf hk
+
+theorem C12_sign_towards_hrack (formPf pdfB cdfB : ℝ) (ks : List ℝ) (hp : 0 < pdfB) (hcdf : 0 < cdfB)
+    (hpf : 0 ≤ formPf) (hk : ∀ k ∈ ks, -1 / (pdfB / cdfB) < k ∧ k ≤ 0) :
+    formPf ≤ hrack formPf pdfB cdfB ks :=
+  C12_sign_towards (pdfB / cdfB) formPf ks (div_pos hp hcdf) hpf hk
+
+/-! ### 5. rotation / ordering invariance of the curvature extraction -/
+
+section rotation
+open Matrix Polynomial
+variable {m : ℕ}
+
+/-- a left inverse of a square real matrix is a right inverse -/
+theorem orth_transpose_mul (R : Matrix (Fin m) (Fin m) ℝ) (h : R * Rᵀ = 1) : Rᵀ * R = 1 :=
+  _root_.mul_eq_one_comm.1 h
+
+/-- conjugating with an orthogonal matrix does not change the characteristic polynomial -/
+theorem C12_similar_charpoly (R : Matrix (Fin m) (Fin m) ℝ) (h : R * Rᵀ = 1) (k : Fin m → ℝ) :
+    (R * Matrix.diagonal k * Rᵀ).charpoly = (Matrix.diagonal k).charpoly := by
+  rw [Matrix.charpoly_mul_comm, ← Matrix.mul_assoc, orth_transpose_mul R h, Matrix.one_mul]
+
+/-- the leading block of the Hessian `Q diag(k,0) Qᵀ` conjugated with the orthonormal frame `H`
+whose last row is the design direction, `H Q = fromBlocks R 0 0 1` -/
+theorem C12_leading_block (R : Matrix (Fin m) (Fin m) ℝ) (k : Fin m → ℝ) :
+    (Matrix.fromBlocks R 0 0 (1 : Matrix Unit Unit ℝ) *
+        Matrix.fromBlocks (Matrix.diagonal k) 0 0 0 *
+        (Matrix.fromBlocks R 0 0 (1 : Matrix Unit Unit ℝ))ᵀ).toBlocks₁₁ =
+      R * Matrix.diagonal k * Rᵀ := by
+  rw [Matrix.fromBlocks_transpose, Matrix.fromBlocks_multiply, Matrix.fromBlocks_multiply,
+    Matrix.toBlocks_fromBlocks₁₁]
+  simp only [Matrix.mul_zero, add_zero, Matrix.transpose_zero]
+
+/-- the eigenvalues of the leading block are exactly the principal curvatures, whatever the
+rotation `R` of the tangent frame -/
+theorem C12_leading_block_charpoly (R : Matrix (Fin m) (Fin m) ℝ) (h : R * Rᵀ = 1) (k : Fin m → ℝ) :
+    ((Matrix.fromBlocks R 0 0 (1 : Matrix Unit Unit ℝ) *
+        Matrix.fromBlocks (Matrix.diagonal k) 0 0 0 *
+        (Matrix.fromBlocks R 0 0 (1 : Matrix Unit Unit ℝ))ᵀ).toBlocks₁₁).charpoly =
+      ∏ i, (X - C (k i)) := by
+  rw [C12_leading_block, C12_similar_charpoly R h, Matrix.charpoly_diagonal]
+
+/-- the whole conjugated Hessian is block diagonal: the design direction decouples with a zero
+eigenvalue, so nothing leaks into or out of the leading block -/
+theorem C12_conjugated_hessian (R : Matrix (Fin m) (Fin m) ℝ) (k : Fin m → ℝ) :
+    Matrix.fromBlocks R 0 0 (1 : Matrix Unit Unit ℝ) *
+        Matrix.fromBlocks (Matrix.diagonal k) 0 0 0 *
+        (Matrix.fromBlocks R 0 0 (1 : Matrix Unit Unit ℝ))ᵀ =
+      Matrix.fromBlocks (R * Matrix.diagonal k * Rᵀ) 0 0 0 := by
+  rw [Matrix.fromBlocks_transpose, Matrix.fromBlocks_multiply, Matrix.fromBlocks_multiply]
+  simp only [Matrix.mul_zero, Matrix.zero_mul, add_zero, Matrix.transpose_zero]
+
+end rotation
+
+/-! ### non-vacuity -/
+
+example : breitung (2 : ℝ) (1 / 10) [0, 0] = 1 / 10 :=
+  (C12_zero_curvature 2 (1 / 10) 0 1 [0, 0] (by simp)).1
+
+example : breitung (2 : ℝ) (1 / 10) [1, 3] = breitung 2 (1 / 10) [3, 1] :=
+  (C12_permutation 2 (1 / 10) 0 1 (List.Perm.swap 3 1 [])).1
+
+example : breitung (2 : ℝ) (1 / 10) [1, 3] ≤ 1 / 10 :=
+  C12_sign_away_breitung 2 (1 / 10) [1, 3] (by norm_num) (by norm_num) (by
+    intro k hk; simp only [List.mem_cons, List.not_mem_nil, or_false] at hk
+    rcases hk with rfl | rfl <;> norm_num)
+
+example : (1 / 10 : ℝ) ≤ breitung 2 (1 / 10) [-(1 / 4), -(1 / 3)] :=
+  C12_sign_towards_breitung 2 (1 / 10) [-(1 / 4), -(1 / 3)] (by norm_num) (by norm_num) (by
+    intro k hk; simp only [List.mem_cons, List.not_mem_nil, or_false] at hk
+    rcases hk with rfl | rfl <;> norm_num)
+
+open Matrix in
+/-- a concrete rotation (the 3-4-5 one) of the tangent plane: the curvatures `2, 7` are recovered -/
+example :
+    (!![(3 / 5 : ℝ), -(4 / 5); 4 / 5, 3 / 5] * Matrix.diagonal ![2, 7] *
+        (!![(3 / 5 : ℝ), -(4 / 5); 4 / 5, 3 / 5])ᵀ).charpoly =
+      ∏ i, (Polynomial.X - Polynomial.C ((![2, 7] : Fin 2 → ℝ) i)) := by
+  rw [C12_similar_charpoly _ _ _, Matrix.charpoly_diagonal]
+  ext i j
+  fin_cases i <;> fin_cases j <;> simp [Matrix.mul_apply, Fin.sum_univ_two] <;> norm_num
+
+end FF
